@@ -20,7 +20,13 @@ CONFIGS = {
     "default": ("dev", []),
     "nostd": ("dev", ["--no-default-features"]),
     "nostd-feat": ("dev", ["--no-default-features", "--features", "serde,rand"]),
+    # the 32-bit-digit variants of the code (cfg(not(target_pointer_width = "64"))): std is built from rust-src for i686
 }
+_T32 = ["--target", "i686-unknown-linux-gnu"]
+for _c in ("all", "all-rel", "default"):
+    CONFIGS[_c + "32"] = (CONFIGS[_c][0], CONFIGS[_c][1] + ["-Zbuild-std=std"] + _T32)
+for _c in ("nostd", "nostd-feat"):
+    CONFIGS[_c + "32"] = (CONFIGS[_c][0], CONFIGS[_c][1] + ["-Zbuild-std=core,alloc"] + _T32)
 
 # the ten combinations of ci/test_full.sh
 MATRIX = [
